@@ -4,6 +4,7 @@
 From Coq Require Import List NArith Bool.
 From Feox Require Import Gen.Constants Model.FreeSpace Proofs.FreeSpaceProofs Proofs.OwnershipProofs.
 From Feox Require Model.FailPath Proofs.FailPathProofs.
+From Feox Require Model.FailBatches Proofs.FailBatchesProofs.
 Import ListNotations.
 Local Open Scope N_scope.
 
@@ -97,7 +98,9 @@ Theorem ownership_partition_with_deletes :
   Inv (FailPath.f_fs st) /\
   (forall b, (FailPathProofs.cnt b owned <= 1)%nat) /\
   (forall b, DS <= b < dev_sectors (FailPath.f_fs st) -> (free (FailPath.f_fs st) b <-> FailPathProofs.cnt b owned = O)) /\
-  FailPath.f_usage st = FailPathProofs.sum_blocks owned.
+  FailPath.f_usage st = FailPathProofs.sum_blocks owned
+
+(* ... and when a pass spans several journal transactions (Model/FailBatches.v), any queue length *).
 Proof. exact FailPathProofs.ownership_partition_with_deletes. Qed.
 Check ownership_partition_with_deletes :
   forall fault d f cs,
@@ -108,8 +111,31 @@ Check ownership_partition_with_deletes :
   Inv (FailPath.f_fs st) /\
   (forall b, (FailPathProofs.cnt b owned <= 1)%nat) /\
   (forall b, DS <= b < dev_sectors (FailPath.f_fs st) -> (free (FailPath.f_fs st) b <-> FailPathProofs.cnt b owned = O)) /\
-  FailPath.f_usage st = FailPathProofs.sum_blocks owned.
+  FailPath.f_usage st = FailPathProofs.sum_blocks owned
+
+(* ... and when a pass spans several journal transactions (Model/FailBatches.v), any queue length *).
 Print Assumptions ownership_partition_with_deletes.
+
+Theorem ownership_partition_through_failures_over_batches :
+  forall fault d f cs,
+  d < U64 -> initialize d = FOk f ->
+  let st := FailBatchesProofs.pcalls fault (FailPath.finit f) cs in
+  let owned := FailPath.exts_of (FailPath.f_queue st) ++ map snd (FailPath.f_durable st) in
+  Inv (FailPath.f_fs st) /\
+  (forall b, (FailPathProofs.cnt b owned <= 1)%nat) /\
+  (forall b, DS <= b < dev_sectors (FailPath.f_fs st) -> (free (FailPath.f_fs st) b <-> FailPathProofs.cnt b owned = O)) /\
+  FailPath.f_usage st = FailPathProofs.sum_blocks owned.
+Proof. exact FailBatchesProofs.ownership_partition_through_failures_batched. Qed.
+Check ownership_partition_through_failures_over_batches :
+  forall fault d f cs,
+  d < U64 -> initialize d = FOk f ->
+  let st := FailBatchesProofs.pcalls fault (FailPath.finit f) cs in
+  let owned := FailPath.exts_of (FailPath.f_queue st) ++ map snd (FailPath.f_durable st) in
+  Inv (FailPath.f_fs st) /\
+  (forall b, (FailPathProofs.cnt b owned <= 1)%nat) /\
+  (forall b, DS <= b < dev_sectors (FailPath.f_fs st) -> (free (FailPath.f_fs st) b <-> FailPathProofs.cnt b owned = O)) /\
+  FailPath.f_usage st = FailPathProofs.sum_blocks owned.
+Print Assumptions ownership_partition_through_failures_over_batches.
 Example partition_unfolds : forall o, OInv o ->
   forall b, FEOX_DATA_START_BLOCK <= b < dev_sectors (ofs o) -> (free (ofs o) b <-> ~ owned_blk o b).
 Proof. intros o [_ H _ _]. exact H. Qed.
